@@ -99,6 +99,36 @@ func (e *c20TypeEnv) ty(x ast.Expr, depth int) string {
 	return fmt.Sprintf("(.unrecognised %q)", e.pos(x))
 }
 
+// c20IsBasic: the type expression is a predeclared basic type, or a pointer to one.
+func c20IsBasic(x ast.Expr) bool {
+	if st, ok := x.(*ast.StarExpr); ok {
+		x = st.X
+	}
+	id, ok := x.(*ast.Ident)
+	if !ok {
+		return false
+	}
+	switch id.Name {
+	case "string", "bool", "int", "int64", "uint64", "float64", "int32", "uint32", "float32", "uint":
+		return true
+	}
+	return false
+}
+
+// c20BasicKind: the JSON kind a basic-typed field accepts.
+func c20BasicKind(x ast.Expr) string {
+	if st, ok := x.(*ast.StarExpr); ok {
+		x = st.X
+	}
+	switch x.(*ast.Ident).Name {
+	case "string":
+		return "string"
+	case "bool":
+		return "bool"
+	}
+	return "num"
+}
+
 func extractC20Types(repo string) (string, error) {
 	env, _, err := c20LoadPackage(repo)
 	if err != nil {
@@ -109,7 +139,7 @@ func extractC20Types(repo string) (string, error) {
 		names = append(names, n)
 	}
 	sort.Strings(names)
-	var fields, wrappers, maplikes, embedded, firstExt []string
+	var fields, wrappers, maplikes, embedded, firstExt, plain, kinds []string
 	for _, n := range names {
 		st, ok := env.specs[n].Type.(*ast.StructType)
 		if !ok {
@@ -149,6 +179,10 @@ func extractC20Types(repo string) (string, error) {
 				}
 				if tag != "" {
 					fields = append(fields, fmt.Sprintf("⟨%q, %q, %s⟩", n, tag, env.ty(f.Type, 0)))
+					if c20IsBasic(f.Type) {
+						plain = append(plain, fmt.Sprintf("%q", n+"."+tag))
+						kinds = append(kinds, fmt.Sprintf("(%q, %q)", n+"."+tag, c20BasicKind(f.Type)))
+					}
 				}
 			}
 		}
@@ -167,6 +201,11 @@ func extractC20Types(repo string) (string, error) {
 	sb.WriteString("def c20Wrappers : List (String × Ty) := [\n  " + strings.Join(wrappers, ",\n  ") + "]\n\n")
 	sb.WriteString("def c20Maplikes : List (String × Ty) := [\n  " + strings.Join(maplikes, ",\n  ") + "]\n\n")
 	sb.WriteString("def c20Embedded : List (String × String) := [\n  " + strings.Join(embedded, ",\n  ") + "]\n\n")
-	sb.WriteString("def c20ExtensionsFirst : List String := [\n  " + strings.Join(firstExt, ", ") + "]\n\nend KinModel.Gen\n")
+	sb.WriteString("def c20ExtensionsFirst : List String := [\n  " + strings.Join(firstExt, ", ") + "]\n\n")
+	// "Owner.tag" of the tagged fields whose declared type is a predeclared basic type or a pointer to one
+	// (encoding/json rejects a JSON object or array there; no named type, no custom unmarshaller in between)
+	sb.WriteString("def c20PlainScalars : List String := [\n  " + strings.Join(plain, ", ") + "]\n\n")
+	// the JSON kind each of them accepts: "string", "bool" or "num"
+	sb.WriteString("def c20ScalarKinds : List (String × String) := [\n  " + strings.Join(kinds, ", ") + "]\n\nend KinModel.Gen\n")
 	return sb.String(), nil
 }
